@@ -178,6 +178,8 @@ func (t *tr) movable(v *val, what string) string {
 	}
 	e := t.read(c)
 	t.setGuard(c, "it was stored in a slice ("+what+"): use the slice element")
+	t.log = append(t.log, logEnt{undo: func() { c.moved = false }, mv: c})
+	c.moved = true // (a write would clear the guard, but it would also change the slot in Go)
 	return e
 }
 
